@@ -46,11 +46,46 @@ fn twoway_sources() -> BoxedStrategy<String> {
         .boxed()
 }
 
+/// definitions with several independent diagnostics: a subpattern definition whose patterns refer to 2-4 distinct
+/// undefined names (in one pattern and across patterns), duplicated definitions, unknown items
+fn multi_error_sources() -> BoxedStrategy<String> {
+    let names = proptest::collection::vec(select(vec!["u1", "zz", "A_b", "n0", "q", "missing", "ws9"]), 2..=4);
+    (model::gen::subpattern_defs(), names, any::<u8>()).prop_map(|(case, names, how)| {
+        let mut def = case.def;
+        let mut distinct: Vec<&str> = Vec::new();
+        for n in names {
+            if !distinct.contains(&n) {
+                distinct.push(n);
+            }
+        }
+        let refs: String = distinct.iter().map(|n| format!("(?&{n})")).collect();
+        let mut pats: Vec<&mut model::spec::PatSpec> =
+            def.skips.iter_mut().chain(def.variants.iter_mut().flat_map(|v| v.iter_mut())).filter(|p| p.kind == model::spec::PatKind::Regex && !p.lit.bytes).collect();
+        if pats.is_empty() {
+            return render(&def);
+        }
+        if how % 3 == 0 && pats.len() >= 2 {
+            // spread over two patterns
+            let k = distinct.len() / 2;
+            let (a, b): (String, String) = (distinct[..k].iter().map(|n| format!("(?&{n})")).collect(), distinct[k..].iter().map(|n| format!("(?&{n})")).collect());
+            let t0 = format!("{}{}", pats[0].lit.text, a);
+            pats[0].lit = model::spec::LitSpec::str(t0);
+            let t1 = format!("{}{}", b, pats[1].lit.text);
+            pats[1].lit = model::spec::LitSpec::str(t1);
+        } else {
+            let t0 = if how % 2 == 0 { format!("{}{}", pats[0].lit.text, refs) } else { format!("{}{}", refs, pats[0].lit.text) };
+            pats[0].lit = model::spec::LitSpec::str(t0);
+        }
+        render(&def)
+    })
+    .boxed()
+}
+
 fn features(src: &str) -> (bool, bool, bool) {
     let d = derive_rust(src.to_string());
-    let Some(g) = d.graph else { return (false, false, false) };
+    let Some(g) = d.graph else { return (false, false, d.errors.len() >= 2) };
     let twoway = g.states.iter().filter(|s| s.normal.len() == 2).count() >= 1;
-    let errors = g.errors.len() >= 2;
+    let errors = g.errors.len() >= 2 || d.errors.len() >= 2;
     let luts = d.output.matches("_TABLE_").count() >= 3;
     (twoway, luts, errors)
 }
@@ -73,12 +108,16 @@ fn sources(args: &Args, n: usize) -> Vec<String> {
     let a = twoway_sources();
     let b = lexing_defs();
     let c = conflict_defs();
+    let d = multi_error_sources();
+    let e = crate::c19::soup_strategy();
     let mut out = Vec::new();
     for i in 0..n {
-        match i % 4 {
+        match i % 6 {
             0 | 1 => out.push(a.new_tree(&mut runner).unwrap().current()),
             2 => out.push(render(&b.new_tree(&mut runner).unwrap().current())),
-            _ => out.push(render(&c.new_tree(&mut runner).unwrap().current())),
+            3 => out.push(render(&c.new_tree(&mut runner).unwrap().current())),
+            4 => out.push(d.new_tree(&mut runner).unwrap().current()),
+            _ => out.push(e.new_tree(&mut runner).unwrap().current().render()),
         }
     }
     out
@@ -89,11 +128,11 @@ pub fn main(args: &Args) -> i32 {
         "C16",
         &args.tier,
         args.seed,
-        "definitions from three generators (two-way-fork family built from alternations like a(b|cd)(e|fg) with colliding priorities for graph errors; the core lexing family; the conflict family) x schedules: generate()+captured graph on 8 freshly spawned threads per definition in-process, the whole batch digest recomputed in 3 child processes, logos-cli (tail-call and state-machine builds) run 3 times per sampled definition then written and --check'ed; oracle: byte equality of every output; evaluation = one generate()/CLI run; non-trivial = distinct definitions whose graph has a state with exactly two successors, >= 3 LUT references, or >= 2 graph errors (counted once per schedule kind)",
+        "definitions from five generators (two-way-fork family built from alternations like a(b|cd)(e|fg) with colliding priorities for graph errors; the core lexing family; the conflict family; subpattern definitions with 2-4 distinct undefined references in one or two patterns; the C19 attribute soup with its malformed and must-reject attributes - diagnostics are output too) x schedules: generate()+captured graph on 8 freshly spawned threads per definition in-process, the whole batch digest recomputed in 3 child processes, logos-cli (tail-call and state-machine builds) run 3 times per sampled definition then written and --check'ed; oracle: byte equality of every output; evaluation = one generate()/CLI run; non-trivial = distinct definitions whose graph has a state with exactly two successors, >= 3 LUT references, or >= 2 graph errors or >= 2 diagnostics (counted once per schedule kind)",
     );
     run.assumptions = vec!["hash seeds are sampled (fresh RandomState keys per thread/process), not enumerated".into()];
     std::panic::set_hook(Box::new(|_| {}));
-    let n = if args.cases > 0 { args.cases as usize } else if args.thorough() { 6000 } else { 500 };
+    let n = if args.cases > 0 { args.cases as usize } else if args.thorough() { 9000 } else { 750 };
     let srcs = sources(args, n);
     if let Some(path) = &args.replay {
         let v: serde_json::Value = serde_json::from_str(&std::fs::read_to_string(path).unwrap()).unwrap();
